@@ -18,6 +18,11 @@ func main() {
 		}
 
 		if tier == "thorough" {
+			// the pair programs one preemption deeper than the quick tier
+			for i := range pl.Programs {
+				pl.Programs[i].Bound = 4
+			}
+
 			pl.PerProg = 60 * time.Second
 
 			for _, fs := range []string{"MemFS", "OrefaFS"} {
